@@ -1,5 +1,5 @@
 PROP = {
-    "modules": ["Discv5Model.Props.C20"],
+    "modules": ["Discv5Model.Props.C20", "Discv5Model.Props.C15SessionUse"],
     "lemma_modules": ["Discv5Model.Proofs.TalkLemmas"],
     "engines": [{"name": "talk", "quick": 150, "thorough": 3000}, {"name": "handler", "quick": 40, "thorough": 3000}],
     "rule": "talk engine: one real Service (scripted handler); up to ~14 TALKREQs delivered from 5 peers / several "
